@@ -117,6 +117,8 @@ type Config struct {
 	NoTokensInCallee bool
 	// ArgNames overrides the names of the top-level arguments (default x, y, z).
 	ArgNames []string
+	// FnArgs: top-level arguments may be closures int -> int.
+	FnArgs bool
 }
 
 type Gen struct {
@@ -947,7 +949,11 @@ func (g *Gen) GenProgram() Program {
 	sc := &Scope{Frame: map[string]bool{}}
 	var tys []Ty
 	for i := 0; i < k; i++ {
-		t := ArgTypes[g.n(len(ArgTypes), "argType")]
+		choices := ArgTypes
+		if g.C.FnArgs {
+			choices = append(append([]Ty{}, ArgTypes...), TFn1, TFn1, TFn1, TFn1, TFn1, TFn1)
+		}
+		t := choices[g.n(len(choices), "argType")]
 		if i == 0 && g.chance(60, "firstInt") {
 			t = TInt
 		}
